@@ -584,6 +584,8 @@ class STRINGN(StringDataType):
         except KeyError as err:
             raise DataError(f"Unsupported character size: {char_size}") from err
         else:
+            if char_count == 0:
+                return ""
             data = cls._stream_read(stream, char_count * char_size)
 
             return data.decode(encoding)
